@@ -251,8 +251,12 @@ def rule_work(facts, col, rid_c19="C19.R2", rid_c08="C08.R1", rid_c12="C12.R2", 
                 "lock-step from index 0" % forb)
         elif len(takes) != 1 or not _is_n(body.operand_expr(takes[0][1]["args"][1])):
             bad(rid_c08, "i:take_n", "the sample iterator is not limited by take(n) with the clamped step count")
+            bad(rid_c19, "s:steps", "process_sync*() is not called exactly n = min(shortest input, smallest output space) times per call: the "
+                "sample iterator is bounded by something other than the clamped step count (e.g. the input-only clamp), so an output-limited "
+                "call runs one step more than it consumes and produces, and that sample is processed again next time")
         else:
             ok(rid_c08, "i:lockstep", "inputs walked in lock-step from 0 (take(n), zip, enumerate, map only)")
+            ok(rid_c19, "s:steps", "the per-sample iterator is bounded by the clamped step count n")
         iters = {}
         slices = {}
         for bb, t in body.calls():
@@ -468,6 +472,7 @@ def run_on(ctx, facts, tag):
     bodies = [b for b, _ in sync_work_bodies(facts)]
     c09.rule_r3(facts, _Retag(ctx, "C09.R3", "C19.R2b"), bodies)
     c09.rule_r4(facts, _Retag(ctx, "C09.R4", "C19.R2b"), bodies)
+    c09.rule_r7(facts, ctx, rule_id="C19.R2b", bodies=bodies)
     # "processes exactly min(..) steps per call" - and does not panic on the way: the C15 site rules (content- or tag-dependent
     # index / arithmetic / unwrap sites must be guarded) restricted to the generated code
     from . import c15
